@@ -338,7 +338,7 @@ for key, (i, lst) in C03_CDIV.items():
             continue
         add(H('C03', f"c03_u_cdiv_{i.tag}_{tag.replace('.', '').replace('_', '')}", 'c03_u_cdiv', f"{i.n + 2}, {i.U}, {i.digit}, {i.n}, {X}, [{', '.join(hex(v) for v in dv)}]", tier=('quick' if tag in C03_CDIV_FAST else 'thorough'), cap=(600 if tag in C03_CDIV_FAST else 3600), inst=i.label, core=False, mem_gb=8,
               funcs='BUint / and % (Knuth D: q-hat estimate, corrections, multiply-subtract, add-back at every quotient position)', bound=f'all dividends; concrete divisor 0x{tag}; postcondition n = q*d + r, r < d'))
-for tag, dv, tier in (('8..01', [1, 0x8000000000000000, 0], 'quick'), ('f..f', [0xffffffffffffffff, 0xffffffffffffffff, 0], 'thorough'), ('1_1', [1, 1, 0], 'quick'),
+for tag, dv, tier in (('1d8..03', [0x8000000000000003, 0, 0], 'quick'), ('8..01', [1, 0x8000000000000000, 0], 'quick'), ('f..f', [0xffffffffffffffff, 0xffffffffffffffff, 0], 'thorough'), ('1_1', [1, 1, 0], 'quick'),
                       ('7..f_f..e', [0xfffffffffffffffe, 0x7fffffffffffffff, 0], 'thorough')):
     i = I(64, 3)
     add(H('C03', f"c03_u_cdiv_wide_{i.tag}_{tag.replace('.', '').replace('_', '')}", 'c03_u_cdiv_wide', f"{i.n + 2}, {i.U}, {i.n}, [{', '.join(hex(v) for v in dv)}]", tier=tier, cap=(900 if tier == 'quick' else 5400), inst=i.label, core=False, mem_gb=12,
@@ -707,7 +707,8 @@ for sg in ('u', 'i'):
                  label='zero-/sign-extension commutes with add/sub/cmp/shl' + (' and mul/div/rem/pow' if mul == 'true' else ''))
 C16_CMUL = [
     (I(8, 4), I(32, 1), 'u', '8001', [0x01, 0x80, 0, 0], 'quick'), (I(8, 8), I(64, 1), 'u', 'ffff0001', [0x01, 0, 0xff, 0xff, 0, 0, 0, 0], 'thorough'), (I(8, 8), I(64, 1), 'u', '8001', [0x01, 0x80, 0, 0, 0, 0, 0, 0], 'quick'), (I(16, 4), I(32, 2), 'i', '8000_0001', [1, 0, 0, 0x80, 0, 0, 0, 0], 'quick'),
-    (I(32, 4), I(64, 2), 'u', '2p64p1', [1, 0, 0, 0, 0, 0, 0, 0, 1, 0, 0, 0, 0, 0, 0, 0], 'quick'), (I(8, 16), I(64, 2), 'u', 'top80', [1, 0, 0, 0, 0, 0, 0, 0, 0, 0, 0, 0x80, 0, 0, 0, 0], 'thorough'),
+    (I(32, 4), I(64, 2), 'u', '2p64p1', [1, 0, 0, 0, 0, 0, 0, 0, 1, 0, 0, 0, 0, 0, 0, 0], 'quick'),
+    (I(32, 4), I(64, 2), 'u', '1d8003', [3, 0, 0, 0, 0, 0, 0, 0x80, 0, 0, 0, 0, 0, 0, 0, 0], 'quick'), (I(8, 16), I(64, 2), 'u', 'top80', [1, 0, 0, 0, 0, 0, 0, 0, 0, 0, 0, 0x80, 0, 0, 0, 0], 'thorough'),
     (I(16, 8), I(32, 4), 'i', 'neg3', [0xfd, 0xff, 0xff, 0xff, 0xff, 0xff, 0xff, 0xff, 0xff, 0xff, 0xff, 0xff, 0xff, 0xff, 0xff, 0xff], 'thorough'), (I(32, 2), I(64, 1), 'i', 'min', [0, 0, 0, 0, 0, 0, 0, 0x80], 'quick'),
     (I(8, 12), I(32, 3), 'u', 'mid', [0xff, 0xff, 0, 0, 0x01, 0, 0, 0x80, 0, 0, 0, 0], 'thorough'),
 ]
@@ -766,7 +767,7 @@ def c12_radix(i, sg, kind, fv, tier, cap=900, core=False, gen='any'):
     unw = max(maxlen, -(-i.dbits // lg) if dm else 0, i.n, 16) + 3
     add(H('C12', f"c12_{ {'b': 'bin', 'x': 'lhex', 'X': 'uhex', 'o': 'oct'}[kind]}_{sg}_{i.tag}" + ('' if gen == 'any' else '_alpha'), 'c12_radix',
           f"{unw}, {T}, {i.digit}, {i.n}, {lg}, {up}, {pc}, {maxlen}, \"{kind}\", core::fmt::{tr}, {gen}, [{', '.join(stubs)}]",
-          tier=tier, cap=cap, inst=i.label, stub=True, core=core, mem_gb=8,
+          tier=tier, cap=cap, inst=i.label, stub=True, core=core, mem_gb=(8 if tier == 'quick' or (i.bits <= 128 and maxlen <= 64) else 24),
           funcs=f"{'BUint' if sg == 'u' else 'BInt'} core::fmt::{tr}",
           bound=('all values' if gen == 'any' else 'every digit over the boundary alphabet') + f'; all formatter options (width None / 0..=16, ASCII fill, alignment, +, #, 0 symbolic); symbolic character index; the (sign, prefix, numeral) triple handed to pad_integral + option pass-through; unwind {unw}'))
 
